@@ -145,6 +145,40 @@ fn random(n: usize, maxlen: usize) {
     }
 }
 
+/// Long adversarial pairs (added after the seeded change `C05-r5-...-work-budget` was missed): a self-overlapping
+/// literal of 6..24 symbols after a `*` against a run of 80..400 symbols that contains it only at the very end
+/// (or not at all), so that a correct matcher has to restart the literal at (almost) every text position - the work is
+/// (text length) x (literal length), far beyond anything linear in the input. Several such segments may be chained.
+fn long(n: usize) {
+    let mut rng = Rng::from_env();
+    for k in 0..n {
+        let segs = 1 + rng.below(3);
+        let mut p: Vec<String> = vec![];
+        let mut t: Vec<String> = vec![];
+        let head = rng.below(4);
+        for _ in 0..head { let c = rng.pick(&["a", "b"]).to_string(); p.push(c.clone()); t.push(c); }
+        for _ in 0..segs {
+            // literal = u^m v with a short period u, text run = u^M (M >> m) then v: every shifted start matches u^m and fails at v
+            let ulen = 1 + rng.below(2);
+            let u: Vec<&str> = if ulen == 1 { vec![*rng.pick(&["a", "b"])] } else { vec!["a", "b"] };
+            let m = rng.range(6, 24) / ulen + 1;
+            let big = rng.range(80, 400) / ulen;
+            let v = if u[0] == "a" && ulen == 1 { "b" } else { "a" };
+            p.push("*".into());
+            for i in 0..m * ulen { p.push(u[i % ulen].to_string()); }
+            p.push(v.to_string());
+            for i in 0..big * ulen { t.push(u[i % ulen].to_string()); }
+            t.push(v.to_string());
+        }
+        if rng.chance(1, 2) { p.push("*".into()); for _ in 0..rng.below(5) { t.push(rng.pick(&["a", "b"]).to_string()); } }
+        // a third of the pairs are made non-matching by one edit of the text tail, or are left as they are
+        match k % 3 { 0 => { let i = t.len() - 1 - rng.below(t.len().min(3)); let c = if t[i] == "a" { "b" } else { "a" }; t[i] = c.to_string(); } _ => {} }
+        let map = rng.below(3);
+        let got = call(&render(&p, map), &render(&t, map), false);
+        out_line(&json!({"p": p, "t": t, "got": match got { Ok(b) => json!(b), Err(e) => json!(e) }}));
+    }
+}
+
 fn main() {
     quiet_panics();
     let a: Vec<String> = std::env::args().collect();
@@ -155,6 +189,7 @@ fn main() {
             replay(max_t, syms)
         }
         Some("random") => random(a[2].parse().unwrap(), a[3].parse().unwrap()),
+        Some("long") => long(a[2].parse().unwrap()),
         Some("cases") => cases(),
         _ => { eprintln!("usage: glob replay|random ..."); std::process::exit(2) }
     }
